@@ -49,6 +49,20 @@ HENC_CASES = [
 ]
 
 
+# (prescribed hosts, context element or "-" for a document, input); "@" = the context element
+SHADOW_CASES = [
+    ('div', '-', '<div><template shadowrootmode=open>x</template></div>'),
+    ('@', 'div', '<template shadowrootmode=open>x</template>'),
+    ('p', 'div', '<p><template shadowrootmode=closed>x</template></p>'),
+    ('head', '-', '<template shadowrootmode=open>x</template>'),
+    ('-', 'div', '<template shadowrootmode=bogus>x</template>'),
+    ('-', '-', '<div><template>x</template></div>'),
+    ('@', 'section', 'a<template shadowrootmode=closed><b>x</b></template>c'),
+    ('div,span', '-', '<div><template shadowrootmode=open><span><template shadowrootmode=open>x</template></span></template></div>'),
+    ('td', '-', '<table><tr><td><template shadowrootmode=open>x</template></td></tr></table>'),
+]
+
+
 TRACE_DOCS = [
     '<div><b>bold</div><table><tr><td>cell</td></tr></table><a>link</a> tail',
     '<p><b><i>x</p>y<table><td><a>z</table>w',
@@ -132,6 +146,9 @@ def run_kani_unit(name, tier):
     if name == 'b_henc':
         return _sweep(name, 'henc', ['%s\t%s' % c for c in HENC_CASES],
                       '%d documents x every 2-chunk split; EncodingIndicators raised vs the labels the WHATWG rules prescribe' % len(HENC_CASES))
+    if name == 'b_shadow':
+        return _sweep(name, 'hshadow', ['%s\t%s\t%s' % c for c in SHADOW_CASES],
+                      '%d template start tags (documents and fragments): hosts of the declarative shadow roots requested from the sink vs the hosts the WHATWG rule prescribes' % len(SHADOW_CASES))
     if name == 'b_trace':
         return _sweep(name, 'htrace', TRACE_DOCS, '%d HTML documents x every split point x (no script action | a script detaches one of the existing elements); '
                       'handles used by the tree builder after the suspension point vs the handles trace_handles reported (and what is connected to them)' % len(TRACE_DOCS))
